@@ -50,6 +50,55 @@ func runC06(c *Ctx, r *Rec) {
 			}
 			return true
 		})
+		// ... or a private starter: an unexported function of the package that is handed the
+		// goroutine's body as a function literal and runs it in a goroutine of its own
+		var starter *ast.FuncDecl
+		var starterCall *ast.CallExpr
+		var taskLit *ast.FuncLit
+		var starterTask *types.Var
+		if goStmt == nil {
+			ast.Inspect(fd.Body, func(x ast.Node) bool {
+				call, ok := x.(*ast.CallExpr)
+				if !ok || starter != nil {
+					return true
+				}
+				cf := calleeOf(info, call)
+				if cf == nil || cf.Exported() {
+					return true
+				}
+				d := c.declOf(cf)
+				if d == nil || d.Body == nil || c.infoFor(d) != info {
+					return true
+				}
+				ps := paramObjs(info, d)
+				for i, a := range call.Args {
+					lit, isLit := ast.Unparen(a).(*ast.FuncLit)
+					if !isLit || i >= len(ps) {
+						continue
+					}
+					// the starter runs that parameter inside a go statement
+					ast.Inspect(d.Body, func(y ast.Node) bool {
+						if g, ok := y.(*ast.GoStmt); ok {
+							runs := false
+							ast.Inspect(g, func(z ast.Node) bool {
+								if cc, ok := z.(*ast.CallExpr); ok && isObj(info, cc.Fun, ps[i]) {
+									runs = true
+								}
+								return true
+							})
+							if isObj(info, g.Call.Fun, ps[i]) {
+								runs = true
+							}
+							if runs {
+								goStmt, starter, starterCall, taskLit, starterTask = g, d, call, lit, ps[i]
+							}
+						}
+						return true
+					})
+				}
+				return true
+			})
+		}
 		if goStmt == nil {
 			r.skip("D1-waitgroup-pairing", construct, c.pos(fd.Pos()), "no go statement in the helper itself (the goroutine may be started by a private function it delegates to)")
 			r.skip("D2-closure-propagation", construct, c.pos(fd.Pos()), "no go statement in the helper itself")
@@ -60,7 +109,9 @@ func runC06(c *Ctx, r *Rec) {
 		// repository called with the helper's variables (objects are mapped through the arguments)
 		var gbody *ast.BlockStmt
 		mapObj := func(o types.Object) types.Object { return o }
-		if lit, _ := goStmt.Call.Fun.(*ast.FuncLit); lit != nil {
+		if starter != nil {
+			gbody = taskLit.Body
+		} else if lit, _ := goStmt.Call.Fun.(*ast.FuncLit); lit != nil {
 			gbody = lit.Body
 			// a literal with parameters: what is handed to it is known inside under the parameter's
 			// name; what it captures keeps its own
@@ -121,45 +172,101 @@ func runC06(c *Ctx, r *Rec) {
 			continue
 		}
 		// ---- D1
-		var adds, dones []ast.Node
-		gGroup := mapObj(group)
-		for _, scope := range []ast.Node{fd.Body, gbody} {
-			if scope == ast.Node(gbody) && containsNode(fd.Body, gbody) {
-				continue // a literal: already visited
+		if starter != nil {
+			// the pairing is the starter's: Add(1) on its group parameter before its go statement,
+			// `defer Done()` first in its goroutine, which then runs the task
+			var sGroup *types.Var
+			sps := paramObjs(info, starter)
+			for i, a := range starterCall.Args {
+				if isObj(info, a, group) && i < len(sps) {
+					sGroup = sps[i]
+				}
 			}
-			ast.Inspect(scope, func(x ast.Node) bool {
-				if rx, mname, call, ok := methodCall(x); ok && (isObj(info, rx, group) || (gGroup != nil && isObj(info, rx, gGroup))) {
-					switch mname {
-					case "Add":
-						adds = append(adds, call)
-					case "Done":
-						dones = append(dones, call)
+			bad := ""
+			if sGroup == nil {
+				bad = "skip: the wait group is not handed to the function that starts the goroutine"
+			} else {
+				var adds, dones []ast.Node
+				for _, scope := range []ast.Node{fd.Body, starter.Body} {
+					ast.Inspect(scope, func(x ast.Node) bool {
+						if rx, mname, call, ok := methodCall(x); ok && (isObj(info, rx, group) || isObj(info, rx, sGroup)) {
+							switch mname {
+							case "Add":
+								adds = append(adds, call)
+							case "Done":
+								dones = append(dones, call)
+							}
+						}
+						return true
+					})
+				}
+				sg := newFG(info, starter.Body)
+				glit, _ := goStmt.Call.Fun.(*ast.FuncLit)
+				switch {
+				case len(adds) != 1:
+					bad = fmt.Sprintf("%d calls of group.Add, required exactly one", len(adds))
+				case len(dones) != 1:
+					bad = fmt.Sprintf("%d calls of group.Done, required exactly one", len(dones))
+				case glit == nil:
+					bad = "skip: the starter's goroutine is not a function literal"
+				case containsNode(glit, adds[0]) || containsNode(taskLit, adds[0]):
+					bad = "group.Add is called inside the goroutine: Wait can return before the helper has registered"
+				case !containsNode(starter.Body, adds[0]) || !sg.nodeDominates(adds[0], goStmt):
+					bad = "group.Add(1) does not dominate the go statement"
+				default:
+					if tv := info.Types[adds[0].(*ast.CallExpr).Args[0]]; tv.Value == nil || tv.Value.String() != "1" {
+						bad = "group.Add is not called with 1 for the single goroutine started"
+					}
+					ds, ok := firstStmt(glit.Body).(*ast.DeferStmt)
+					if !ok || ds.Call != dones[0] {
+						bad = "the goroutine's first statement is not `defer group.Done()`: a panic or early exit leaves the wait group counted up"
 					}
 				}
-				return true
-			})
-		}
-		g := newFG(info, fd.Body)
-		bad := ""
-		switch {
-		case len(adds) != 1:
-			bad = fmt.Sprintf("%d calls of group.Add, required exactly one", len(adds))
-		case len(dones) != 1:
-			bad = fmt.Sprintf("%d calls of group.Done, required exactly one", len(dones))
-		case containsNode(gbody, adds[0]):
-			bad = "group.Add is called inside the goroutine: Wait can return before the helper has registered"
-		case !g.nodeDominates(adds[0], goStmt):
-			bad = "group.Add(1) does not dominate the go statement"
-		default:
-			if tv := info.Types[adds[0].(*ast.CallExpr).Args[0]]; tv.Value == nil || tv.Value.String() != "1" {
-				bad = "group.Add is not called with 1 for the single goroutine started"
+				_ = starterTask
 			}
-			ds, ok := firstStmt(gbody).(*ast.DeferStmt)
-			if !ok || ds.Call != dones[0] {
-				bad = "the goroutine's first statement is not `defer group.Done()`: a panic or early exit leaves the wait group counted up"
-			}
+			r.verdict("D1-waitgroup-pairing", construct, c.pos(starterCall.Pos()), "the private starter does Add(1) before its go statement and its goroutine starts with defer Done(); no other Add/Done", bad)
 		}
-		r.check(bad == "", "D1-waitgroup-pairing", construct, c.pos(goStmt.Pos()), "Add(1) dominates go; the goroutine starts with defer Done(); no other Add/Done", bad)
+		var adds, dones []ast.Node
+		gGroup := mapObj(group)
+		if starter == nil {
+			for _, scope := range []ast.Node{fd.Body, gbody} {
+				if scope == ast.Node(gbody) && containsNode(fd.Body, gbody) {
+					continue // a literal: already visited
+				}
+				ast.Inspect(scope, func(x ast.Node) bool {
+					if rx, mname, call, ok := methodCall(x); ok && (isObj(info, rx, group) || (gGroup != nil && isObj(info, rx, gGroup))) {
+						switch mname {
+						case "Add":
+							adds = append(adds, call)
+						case "Done":
+							dones = append(dones, call)
+						}
+					}
+					return true
+				})
+			}
+			g := newFG(info, fd.Body)
+			bad := ""
+			switch {
+			case len(adds) != 1:
+				bad = fmt.Sprintf("%d calls of group.Add, required exactly one", len(adds))
+			case len(dones) != 1:
+				bad = fmt.Sprintf("%d calls of group.Done, required exactly one", len(dones))
+			case containsNode(gbody, adds[0]):
+				bad = "group.Add is called inside the goroutine: Wait can return before the helper has registered"
+			case !g.nodeDominates(adds[0], goStmt):
+				bad = "group.Add(1) does not dominate the go statement"
+			default:
+				if tv := info.Types[adds[0].(*ast.CallExpr).Args[0]]; tv.Value == nil || tv.Value.String() != "1" {
+					bad = "group.Add is not called with 1 for the single goroutine started"
+				}
+				ds, ok := firstStmt(gbody).(*ast.DeferStmt)
+				if !ok || ds.Call != dones[0] {
+					bad = "the goroutine's first statement is not `defer group.Done()`: a panic or early exit leaves the wait group counted up"
+				}
+			}
+			r.check(bad == "", "D1-waitgroup-pairing", construct, c.pos(goStmt.Pos()), "Add(1) dominates go; the goroutine starts with defer Done(); no other Add/Done", bad)
+		}
 
 		// ---- shape of the goroutine
 		var readLoop *ast.ForStmt
@@ -231,6 +338,29 @@ func runC06(c *Ctx, r *Rec) {
 			continue
 		}
 
+		// the caller's sequence of queues is read before the helper returns: a goroutine that asks
+		// the operand for its values (its iterator, its size) does so at some later time, when the
+		// caller may have changed the sequence it still owns
+		{
+			late := ""
+			for _, p := range paramObjs(info, fd) {
+				if !isSequentialParam(p.Type()) || ifaceMethodNames(p.Type())["RemoveHead"] {
+					continue
+				}
+				gp := mapObj(p)
+				ast.Inspect(gbody, func(x ast.Node) bool {
+					if rx, mname, call, ok := methodCall(x); ok && late == "" && (isObj(info, rx, p) || (gp != nil && isObj(info, rx, gp))) {
+						late = fmt.Sprintf("the goroutine calls %s.%s at %s: the caller's sequence is read at some time after %s has returned, so a change the caller makes to its own sequence afterwards changes which queues are joined", p.Name(), mname, c.pos(call.Pos()), name)
+					}
+					return true
+				})
+			}
+			if late != "" {
+				r.fail("D2-operand-read-before-return", construct, c.pos(goStmt.Pos()), late)
+			} else {
+				r.ok("D2-operand-read-before-return", construct, c.pos(goStmt.Pos()), "the goroutine does not ask a sequence operand for anything")
+			}
+		}
 		// what the helper returned belongs to the caller: the goroutine does not change it afterwards
 		if name != "Join" {
 			mut := ""
@@ -303,6 +433,19 @@ func runC06(c *Ctx, r *Rec) {
 			}
 			wrap := iterObj != nil && wrapCheckFollows(info, lg, readLoop, iterObj, getNext, okObj)
 			start := iterObj != nil && startsFromStart(info, gbody, readLoop, iterObj)
+			if iterObj != nil && !start && !touchesBefore(info, gbody, readLoop, iterObj) {
+				// the goroutine takes the iterator as it finds it: where does it stand when the
+				// goroutine is started?
+				switch iteratorStateAt(c, info, fd, iterObj, gbody.Pos(), 0) {
+				case 1:
+					start = true
+				case -1:
+					if okAdd && okRead && wrap {
+						r.skip("D3-distribution", construct, c.pos(readLoop.Pos()), "where the cyclic iterator stands when the goroutine starts could not be established (it is positioned outside the goroutine)")
+						continue
+					}
+				}
+			}
 			if iterObj == nil || getNext == nil || len(adds) == 0 {
 				r.skip("D3-distribution", construct, c.pos(readLoop.Pos()), "the read loop does not advance a cyclic iterator with one GetNext and add to the output in its own body")
 				continue
@@ -618,6 +761,12 @@ func startsFromStart(info *types.Info, body *ast.BlockStmt, loop *ast.ForStmt, i
 			if methodCallOn(info, x, iter, "ToStart") {
 				atStart = true
 			}
+			// a fresh iterator stands at the start
+			if lhs, rhs, ok := multiDef(x); ok && len(lhs) == 1 && identObj(info, lhs[0]) == iter {
+				if _, mname, _, ok := methodCall(ast.Unparen(rhs)); ok && mname == "GetIterator" {
+					atStart = true
+				}
+			}
 			return true
 		})
 	}
@@ -886,4 +1035,131 @@ func funcLitOf(c *Ctx, info *types.Info, id *ast.Ident) *ast.FuncLit {
 		})
 	}
 	return lit
+}
+
+// touchesBefore: does the statement list of body move or rewind the iterator before the loop?
+func touchesBefore(info *types.Info, body *ast.BlockStmt, loop *ast.ForStmt, iter types.Object) bool {
+	touched := false
+	for _, s := range body.List {
+		if s == ast.Stmt(loop) {
+			break
+		}
+		inspectNoLit(s, func(x ast.Node) bool {
+			for _, m := range []string{"GetNext", "GetPrevious", "ToEnd", "ToSlot", "ToStart"} {
+				if methodCallOn(info, x, iter, m) {
+					touched = true
+				}
+			}
+			return true
+		})
+	}
+	return touched
+}
+
+// iteratorStateAt: where the iterator stands when control reaches pos in fd, judged from the
+// straight-line statements of fd before pos: 1 at the start, 0 moved, -1 unknown.  An iterator
+// that comes out of a private helper (a result of a call) is followed into that helper.
+func iteratorStateAt(c *Ctx, info *types.Info, fd *ast.FuncDecl, iter types.Object, pos token.Pos, depth int) int {
+	if depth > 2 || fd == nil || fd.Body == nil {
+		return -1
+	}
+	state := -1
+	for _, s := range fd.Body.List {
+		if s.Pos() >= pos || (s.Pos() < pos && pos < s.End()) {
+			// reached the statement that holds pos: only what precedes pos inside it counts, and
+			// the rule keeps to whole statements
+			break
+		}
+		// definition of the iterator
+		ast.Inspect(s, func(x ast.Node) bool {
+			if _, isLit := x.(*ast.FuncLit); isLit {
+				return false
+			}
+			var lhs []ast.Expr
+			var rhs []ast.Expr
+			switch d := x.(type) {
+			case *ast.AssignStmt:
+				lhs, rhs = d.Lhs, d.Rhs
+			case *ast.ValueSpec:
+				for _, nm := range d.Names {
+					lhs = append(lhs, nm)
+				}
+				rhs = d.Values
+			default:
+				return true
+			}
+			for i, l := range lhs {
+				id, ok := l.(*ast.Ident)
+				if !ok || !(info.Defs[id] == iter || info.Uses[id] == iter) {
+					continue
+				}
+				switch {
+				case len(rhs) == len(lhs):
+					if _, mname, _, ok := methodCall(ast.Unparen(rhs[i])); ok && mname == "GetIterator" {
+						state = 1
+					} else {
+						state = -1
+					}
+				case len(rhs) == 1:
+					state = -1
+					if call, ok := ast.Unparen(rhs[0]).(*ast.CallExpr); ok {
+						if cf := calleeOf(info, call); cf != nil && !cf.Exported() {
+							if hd := c.declOf(cf); hd != nil && hd.Body != nil && c.infoFor(hd) == info && hd.Type.Results != nil {
+								// the i-th result: a named result, or the identifier returned
+								var robj types.Object
+								k := 0
+								for _, f := range hd.Type.Results.List {
+									for _, nm := range f.Names {
+										if k == i {
+											robj = info.Defs[nm]
+										}
+										k++
+									}
+								}
+								if robj == nil {
+									inspectNoLit(hd.Body, func(y ast.Node) bool {
+										if rs, ok := y.(*ast.ReturnStmt); ok && i < len(rs.Results) {
+											robj = identObj(info, rs.Results[i])
+										}
+										return true
+									})
+								}
+								if robj != nil {
+									state = iteratorStateAt(c, info, hd, robj, hd.Body.End(), depth+1)
+								}
+							}
+						}
+					}
+				}
+			}
+			return true
+		})
+		conditional := false
+		switch s.(type) {
+		case *ast.IfStmt, *ast.ForStmt, *ast.RangeStmt, *ast.SwitchStmt, *ast.TypeSwitchStmt, *ast.SelectStmt:
+			conditional = true
+		}
+		inspectNoLit(s, func(x ast.Node) bool {
+			for _, m := range []string{"GetNext", "GetPrevious", "ToEnd", "ToSlot"} {
+				if methodCallOn(info, x, iter, m) {
+					if conditional {
+						state = -1
+					} else {
+						state = 0
+					}
+				}
+			}
+			if methodCallOn(info, x, iter, "ToStart") {
+				if conditional {
+					if state != 1 {
+						state = -1
+					}
+				} else {
+					state = 1
+				}
+			}
+			return true
+		})
+	}
+	return state
 }
